@@ -42,7 +42,7 @@ inductive PSt where
   | unloaded                               -- preload: before LoadAmmo
   | replay (ammos : List Nat) (k : Nat)    -- runPreloaded / scenario Run: ammoNum = k
   | grpc (s : GrpcSt)
-  | gen (ammoNum : Nat) (r : Mpr)
+  | gen (ammoNum : Nat) (r : Mpr) (passStart : Nat)   -- passStart: variable of the progress closure of DecodeProvider.Run
   deriving Repr, DecidableEq
 
 /-- `runFullScan`, one iteration, over a decoder `scan` (constructed with Limit = 0) with pass counter `passNum`;
@@ -77,13 +77,29 @@ def grpcStep (b : Bounds) (n : Nat) (s : GrpcSt) : Act GrpcSt :=
   else if s.ammoNum = 0 then .ret .errOther            -- 92ad194: a whole pass produced nothing
   else .tau { s with passNum := s.passNum + 1, pos := 0 }
 
+/-- `decoder.Decode` on top of `MultiPassReader.Read` as it is since 9d5241f: at the end of the source the reader
+counts a pass; a pass that gave nothing (no byte read: `n = 0`; or the progress function set by `DecodeProvider.Run`
+— "has an ammo been decoded since the end of the previous pass", `ammoNum > passStart`, which also sets
+`passStart := ammoNum` — says no) hands the EOF on; otherwise the reader seeks to the start (jsoniter reads again) while
+passes are left.  `passes = 1` ⇒ `NewMultiPassReader` returns the source itself. -/
+def decodeNextNow (passes n ammoNum : Nat) : Nat → Mpr → Nat → DecodeRes × Mpr × Nat
+  | 0, r, ps => (.spin, r, ps)
+  | fuel + 1, r, ps =>
+    if r.pos < n then (.entry r.pos, { r with pos := r.pos + 1 }, ps)
+    else if passes = 1 then (.eof, r, ps)
+    else
+      let c := r.passesCount + 1
+      if n = 0 ∨ ¬ (ammoNum > ps) then (.eof, { r with passesCount := c }, ammoNum)
+      else if passes = 0 ∨ c < passes then decodeNextNow passes n ammoNum fuel { pos := 0, passesCount := c } ammoNum
+      else (.eof, { r with passesCount := c }, ammoNum)
+
 /-- `DecodeProvider.Run`, one iteration -/
-def genStep (b : Bounds) (n : Nat) (ammoNum : Nat) (r : Mpr) : Act (Nat × Mpr) :=
+def genStep (b : Bounds) (n : Nat) (ammoNum : Nat) (r : Mpr) (ps : Nat) : Act (Nat × Mpr × Nat) :=
   if ¬ (b.limit = 0 ∨ ammoNum < b.limit) then .ret .nil
-  else match decodeNext b.passes n 2 r with
-    | (.eof, _) => .ret .nil
-    | (.spin, _) => .tau (ammoNum, r)
-    | (.entry i, r') => .offer i (ammoNum + 1, r')
+  else match decodeNextNow b.passes n ammoNum 2 r ps with
+    | (.eof, _, _) => .ret .nil
+    | (.spin, _, _) => .tau (ammoNum, r, ps)
+    | (.entry i, r', ps') => .offer i (ammoNum + 1, r', ps')
 
 def Dec.passNumOf (d : Dec) : Nat := d.passNum
 def ArrDec.passNumOf (d : ArrDec) : Nat := d.passNum
@@ -99,7 +115,7 @@ def initSt (inp : Input) (n : Nat) : PSt :=
   | .jsonArray => if inp.preload then .unloaded else .arr ArrDec.init 0
   | .grpcJson => .grpc GrpcSt.init
   | .httpScenario | .grpcScenario => .replay (List.range n) 0
-  | .genericJson => .gen 0 Mpr.init
+  | .genericJson => .gen 0 Mpr.init 0
 
 def styleOf : Kind → Style
   | .jsonLines => .topCheck
@@ -126,7 +142,7 @@ def stepOf (inp : Input) (n : Nat) (c : Bool) : PSt → Act PSt
       | none => .ret .errOther
   | .replay ammos k => liftAct (fun p => .replay p.1 p.2) (replayStep inp.b c ammos k)
   | .grpc s => liftAct .grpc (grpcStep inp.b n s)
-  | .gen a r => liftAct (fun p => .gen p.1 p.2) (genStep inp.b n a r)
+  | .gen a r ps => liftAct (fun p => .gen p.1 p.2.1 p.2.2) (genStep inp.b n a r ps)
 
 /-- what the `case <-ctx.Done()` branch of the send `select` returns -/
 def doneResOf (k : Kind) : RunRes := if k.answersCanceled then .canceled else .nil
@@ -191,6 +207,31 @@ def Sys.run (inp : Input) (n cap cons : Nat) (s : Sys) (ls : List Label) : Sys :
 
 def reach (inp : Input) (n cons : Nat) (ls : List Label) : Sys :=
   (Sys.init inp n).run inp n inp.kind.chanCap cons ls
+
+/-- the schedule of the harness' mode drain, as a function: ONE consumer that is always ready (every offer is handed
+over at once), the context cancelled as soon as `inp.cancelAt` ammo have been acquired, the select taking the Done
+branch when the context is cancelled.  `Drv.C08` runs it next to `Model.C08.run` on every drain cell: the two models
+must predict the same observation (and that prediction must be what the real provider did). -/
+def driveSeq (inp : Input) (n : Nat) : Nat → Sys → Sys
+  | 0, s => s
+  | fuel + 1, s =>
+    if s.result.isSome then s else
+    let s := if cancelled inp.cancelAt s.log.length then { s with cancelled := true } else s
+    match s.offering with
+    | some _ =>
+      if s.cancelled then driveSeq inp n fuel ((s.next inp n inp.kind.chanCap 1 .done).getD s)
+      else driveSeq inp n fuel ((s.next inp n inp.kind.chanCap 1 (.hand 0)).getD s)
+    | none => driveSeq inp n fuel ((s.next inp n inp.kind.chanCap 1 .prod).getD s)
+
+/-- the machine's outcome of a drain cell in the vocabulary of `Model.C08.run` (`none`: not finished within the fuel) -/
+def runMach (inp : Input) (n : Nat) : Option (Outcome Nat) :=
+  match target inp.b.limit inp.b.passes n inp.cancelAt with
+  | none => none
+  | some t =>
+    let s := driveSeq inp n (3 * t + 8) (Sys.init inp n)
+    match s.result with
+    | some r => some ⟨s.log.map (·.2), r, s.closed⟩
+    | none => none
 
 /-- ammo sent so far -/
 def Sys.sent (s : Sys) : Nat := s.log.length + s.buf.length
